@@ -381,13 +381,19 @@ func MkdirAll(path string, perm FileMode) error {
 	if err := s.fault(KMkdir, rel); err != nil {
 		return &os.PathError{Op: "mkdir", Path: path, Err: err}
 	}
+	_, statErr := os.Stat(path)
 	if err := os.MkdirAll(path, perm); err != nil {
 		return err
 	}
 	if !s.JournalOn {
 		s.Calls[KMkdir]++
-	} else if !s.Live.Dirs[rel] && rel != "." {
-		s.add(Entry{Kind: KMkdir, Path: rel})
+	} else if (statErr != nil || !s.Live.Dirs[rel]) && rel != "." {
+		if statErr == nil {
+			// the directory exists but the simulator had not seen it (created by the peer process): no mutation
+			s.Live.Dirs[rel] = true
+		} else {
+			s.add(Entry{Kind: KMkdir, Path: rel})
+		}
 	}
 	return nil
 }
